@@ -475,6 +475,7 @@ void WFXMLScanner::scanReset(const InputSource& src)
     fStandalone = false;
     fErrorCount = 0;
     fHasNoDTD = true;
+    fXMLVersion = XMLReader::XMLV1_0;
     fElementIndex = 0;
 
     // Reset elements lookup table
